@@ -3,7 +3,7 @@
 Bounded-exhaustive enumeration of is_sqr(), sqrt() and sqrt(INV=True) of mpyc.finfields on
 every element of
 
-* the prime fields GF(p) for all primes p <= 200 (thorough: <= 2000): p = 2, p = 3 mod 4
+* the prime fields GF(p) for all primes p <= 300 (thorough: <= 3000): p = 2, p = 3 mod 4
   (exponentiation), p = 5 mod 8 and p = 1 mod 8 (Cipolla-Lehmer);
 * extension fields of odd characteristic with q = 3 mod 4 (27, 243, 343, degree-1 fields; thorough
   also 1331, 2187) and q = 1 mod 4 with 2-adic valuations s = 2..6 of q-1 for Tonelli-Shanks
@@ -38,7 +38,7 @@ MANIFEST = dict(
     level='exploration',
     technique='bounded-exhaustive enumeration of is_sqr/sqrt/inverse sqrt over whole fields against a brute-force '
               'table of squares, roots verified by multiplying back in an independent reference field',
-    text='Every element of GF(p) for all primes p <= 200 (thorough <= 2000; residue classes 2, 3 mod 4, 5 mod 8, '
+    text='Every element of GF(p) for all primes p <= 300 (thorough <= 3000; residue classes 2, 3 mod 4, 5 mod 8, '
          '1 mod 8), of odd extension fields with q = 3 mod 4 and q = 1 mod 4 (Tonelli-Shanks depths s = 2..6, '
          'thorough 8), of binary fields up to GF(2^8) (thorough 2^16), plus constructed squares/non-squares over '
          'boundary alphabets of 61-bit primes of each class, GF(257^2), GF(101^3), GF(103^3), GF(2^16): is_sqr(a) '
@@ -56,7 +56,7 @@ GF2_64 = [1, 1, 0, 1, 1] + [0] * 59 + [1]
 def field_specs(tier):
     thorough = tier == 'thorough'
     out = []
-    for p in rf.primes_upto(2000 if thorough else 200):
+    for p in rf.primes_upto(3000 if thorough else 300):
         out.append((dict(p=p, mod=None), 'full'))
     out.append((dict(p=7, mod=None, nw=(3, 2)), 'full'))
     # small extension fields: all monic irreducible moduli for q <= 27 (+ one non-monic), first one above
@@ -131,10 +131,10 @@ def evaluate(A, law, a, is_square):
     one = R.from_int(1)
     try:
         if law == 'is_sqr':
-            got = x.is_sqr()
+            got = rf.limited(x.is_sqr)
             return bool(got) == is_square, repr(got), repr(is_square)
         if law == 'sqrt':
-            r = x.sqrt()
+            r = rf.limited(x.sqrt)
             c = A.code(r)
             ok = c is not None and R.mul(c, c) == a
             return ok, f'{r!r} (code {c}, square of it has code {None if c is None else R.mul(c, c)})', \
@@ -142,11 +142,11 @@ def evaluate(A, law, a, is_square):
         if law == 'sqrt_inv':
             if a == 0:
                 try:
-                    r = x.sqrt(INV=True)
+                    r = rf.limited(lambda: x.sqrt(INV=True))
                 except ZeroDivisionError:
                     return True, 'ZeroDivisionError', 'ZeroDivisionError'
                 return False, f'returned {r!r}', 'ZeroDivisionError'
-            r = x.sqrt(INV=True)
+            r = rf.limited(lambda: x.sqrt(INV=True))
             c = A.code(r)
             ok = c is not None and R.mul(R.mul(c, c), a) == one
             return ok, f'{r!r} (code {c})', f'a reduced element s with s*s*a == 1 (a has code {a})'
@@ -172,15 +172,19 @@ def run_unit(part, unit):
             part.case(key=None, nontrivial=a not in (0, 1))
             part.outcomes.add((law, br, obs if law == 'is_sqr' or a == 0 else 'value'))
             if not ok:
-                part.violation(f'C21:{law}:{br}' + (':zero' if a == 0 else ''),
+                hang = obs.startswith('raised Hang')
+                part.violation(f'C21:{law}:{br}' + (':zero' if a == 0 else '') + (':hang' if hang else ''),
                                f'{name}: {law}(code {a}; square={is_square}): observed {obs}, expected {exp}',
                                dict(spec=spec, law=law, a=a, is_square=is_square))
+                if hang:
+                    part.caps.append('a unit was abandoned after a call into the code under test hung (see violation)')
+                    return
             elif not sampled and law == 'sqrt_inv' and a > 2:
                 sampled = True
                 part.sample(dict(field=name, branch=br, law=law, a=a, observed=obs))
         if not is_square:      # undocumented territory: tally only
             try:
-                r = A.make(a).sqrt()
+                r = rf.limited(A.make(a).sqrt)
                 c = A.code(r)
                 t = 'returns an element that is not a root' if c is not None and R.mul(c, c) != a else \
                     'returns a root?!' if c is not None else 'returns an unreduced value'
@@ -188,6 +192,9 @@ def run_unit(part, unit):
                 t = f'raises {type(exc).__name__}'
             tally[f'{br}: {t}'] = tally.get(f'{br}: {t}', 0) + 1
             part.case(key=None, nontrivial=False)
+            if t == 'raises Hang':
+                part.caps.append('a unit was abandoned after sqrt of a non-square did not return (not judged)')
+                break
     part.note('sqrt_of_nonsquare_not_judged', tally)
     part.note('elements_per_branch', {br: len(dom)})
     part.note('fields_per_branch', {br: 1 if unit['lo'] == 0 else 0})
@@ -218,6 +225,7 @@ def jobs(tier, seed):
 
 def run_job(job):
     part = Part()
+    rf.arm_watchdog()
     for unit in job['units']:
         run_unit(part, unit)
     return part
@@ -225,6 +233,7 @@ def run_job(job):
 
 def replay(case):
     part = Part()
+    rf.arm_watchdog()
     A = rf.Adapter(rf.make_field(case['spec']))
     ok, obs, exp = evaluate(A, case['law'], case['a'], case['is_square'])
     if not ok:
